@@ -183,7 +183,7 @@ impl<K: HKey> Exec<K> {
         match t[0] {
             "cfg" => { for kv in &t[1..] { self.cfg.apply(kv); } return; }
             "obs" => { self.obs("O"); return; }
-            "plant" | "mkdir" => return,
+            "plant" | "mkdir" | "fault" => return,
             _ => {}
         }
         if t[0] != "open" && self.cas.is_none() {
@@ -304,7 +304,9 @@ fn run_case_in<K: HKey>(case: &Case, sc: &Scratch, arm: (i32, i64), progress: Op
     }
     shim_set_root(&root);
     shim_set_log(&sc.log(), std::env::var("HX_SHIM_DATA").is_ok());
-    shim_arm(arm.0, arm.1);
+    // a `fault <k>` directive in the case overrides the mode's arming (plain / damage runs)
+    let directive = case.lines.iter().find_map(|l| l.strip_prefix("fault ").map(|k| k.trim().parse::<i64>().unwrap()));
+    match directive { Some(k) if arm.0 <= 1 => shim_arm(3, k), _ => shim_arm(arm.0, arm.1) }
     for l in &case.lines { ex.exec_line(l); }
     let count = shim_count();
     // a case that does not end with `close` keeps its handle until here
@@ -363,6 +365,15 @@ pub fn in_child(timeout_s: u64, f: impl FnOnce() -> i32) -> Option<i32> {
             return None;
         }
         std::thread::sleep(std::time::Duration::from_micros(300));
+    }
+}
+
+pub fn copy_dir(from: &Path, to: &Path) {
+    std::fs::create_dir_all(to).unwrap();
+    for e in std::fs::read_dir(from).unwrap().flatten() {
+        let p = e.path();
+        let t = to.join(e.file_name());
+        if e.file_type().unwrap().is_dir() { copy_dir(&p, &t); } else { std::fs::copy(&p, &t).unwrap(); }
     }
 }
 
@@ -456,6 +467,57 @@ fn run_case_modes<K: HKey>(case: &Case, mode: &str) {
                     0
                 });
                 match r { Some(0) => print_file(&rout), Some(c) => { print_file(&rout); println!("V exit={c}"); } None => println!("V hang") }
+            }
+        }
+        "damage-all" => {
+            // run the history to its clean end, then damage copies of the directory
+            let sc0 = Scratch::new();
+            let outp0 = sc0.dir.path().join("out");
+            child_run(&sc0, (0, -1), &outp0, None);
+            println!("CASE {}", case.name);
+            let base = sc0.root();
+            for l in dump_dir(&base, "Z ", None) { println!("{l}"); }
+            let cfg = case_cfg(case);
+            let snap = std::fs::read(base.join("index")).map(|d| crate::indep::snapshot_version(&d)).unwrap_or(0);
+            let mut wals: Vec<(u64, PathBuf)> = std::fs::read_dir(&base).unwrap().flatten().filter_map(|e| {
+                let n = e.file_name().to_str().unwrap().to_string();
+                n.strip_suffix("_index.wal").and_then(|i| i.parse::<u64>().ok()).map(|i| (i, e.path())) }).collect();
+            wals.sort();
+            let wal_ids = wals.clone();
+            let sample = |a: usize, b: usize| -> Vec<usize> {
+                if b - a <= 120 { (a..b).collect() } else { (a..b).filter(|x| x - a < 50 || b - x <= 50 || (x - a) % 17 == 0).collect() }
+            };
+            for (id, path) in wals {
+                let data = std::fs::read(&path).unwrap();
+                let name = format!("{id}_index.wal");
+                let try_open = |label: String, data2: Vec<u8>| {
+                    let sc = Scratch::new();
+                    let root = sc.root();
+                    copy_dir(&base, &root);
+                    std::fs::write(root.join(&name), &data2).unwrap();
+                    if label.starts_with("t ") {
+                        // the log is cut short: everything after the cut is gone, later segments included
+                        for (id2, _) in wal_ids.iter().filter(|(i, _)| *i > id) { let _ = std::fs::remove_file(root.join(format!("{id2}_index.wal"))); }
+                    }
+                    let rout = sc.dir.path().join("rec");
+                    let (log, q) = (sc.dir.path().join("rec.log"), sc.quarantine());
+                    let cfg2 = cfg.clone();
+                    let r = in_child(timeout, || {
+                        let mut ex = Exec::<K>::new(root.clone(), log.clone(), q.clone());
+                        let r = ex.open(&cfg2, true);
+                        let line = if ex.cas.is_some() { format!("opened {}", ex.entries()) } else { r };
+                        std::fs::write(&rout, line).unwrap();
+                        0
+                    });
+                    let res = match r { Some(0) => std::fs::read_to_string(&rout).unwrap_or_default(), Some(c) => format!("exit={c}"), None => "hang".into() };
+                    println!("D {name} {label} -> {res}");
+                };
+                for (o, ver, l) in crate::indep::record_offsets(&data) {
+                    if ver <= snap { continue; }
+                    for cut in sample(o, o + 44 + l) { try_open(format!("t {cut}"), data[..cut].to_vec()); }
+                    let mut pos = sample(o + 8, o + 40); pos.extend(sample(o + 44, o + 44 + l));
+                    for p in pos { for mask in [1u8, 128u8] { let mut d2 = data.clone(); d2[p] ^= mask; try_open(format!("x {p} {mask}"), d2); } }
+                }
             }
         }
         m if m == "fault-all" || m.starts_with("fault:") => {
